@@ -82,6 +82,11 @@ func attrs(o *proxyv1alpha1.UpstreamCluster) admission.Attributes {
 		proxyv1alpha1.SchemeGroupVersion.WithResource("upstreamclusters"), "", admission.Create, &metav1.CreateOptions{}, false, nil)
 }
 
+func updateAttrs(o, old *proxyv1alpha1.UpstreamCluster) admission.Attributes {
+	return admission.NewAttributesRecord(o, old, proxyv1alpha1.SchemeGroupVersion.WithKind("UpstreamCluster"), "", o.Name,
+		proxyv1alpha1.SchemeGroupVersion.WithResource("upstreamclusters"), "", admission.Update, &metav1.UpdateOptions{}, false, nil)
+}
+
 type verdict struct {
 	Accepted bool
 	Err      string
@@ -93,7 +98,15 @@ type verdict struct {
 // admitAndValidate runs the plugin's mutating step (defaults + rule normalisation) and then its Validate, as the API
 // server does for a create. o is mutated in place (it becomes what would be stored and reach the consumers).
 func (b *admissionBed) admitAndValidate(o *proxyv1alpha1.UpstreamCluster) verdict {
-	a := attrs(o)
+	return b.admit(attrs(o))
+}
+
+// admitAndValidateUpdate: the same two steps for an UPDATE of the stored object old to o.
+func (b *admissionBed) admitAndValidateUpdate(o, old *proxyv1alpha1.UpstreamCluster) verdict {
+	return b.admit(updateAttrs(o, old.DeepCopy()))
+}
+
+func (b *admissionBed) admit(a admission.Attributes) verdict {
 	var err error
 	rec, to := guarded(func() { err = b.plugin.(admission.MutationInterface).Admit(context.Background(), a, b.oi) })
 	if rec != nil || to {
@@ -241,6 +254,7 @@ func explore(r *vkit.R, m *material, ab *admissionBed, judged map[string]bool) {
 	mutationSeen := map[string]int{}
 	acceptedByKind := map[string]int{}
 	var sampledClean, sampledRejected bool
+	updateKinds := map[string]int{}
 
 	r.Parallel(n, 16, func(i int, g *vkit.Rand) {
 		o, info := genObject(g, m)
@@ -379,6 +393,11 @@ func explore(r *vkit.R, m *material, ab *admissionBed, judged map[string]bool) {
 			}
 		}
 
+		// UPDATE requests on top of this accepted, cleanly applied object: metadata only / spec only / both / nothing changed
+		if allClean(outs) && cls == "" {
+			exploreUpdate(r, m, ab, judged, g, adm, &mu, updateKinds)
+		}
+
 		var bad []outcome
 		for _, x := range outs {
 			if x.Kind == "harness" {
@@ -446,6 +465,11 @@ func explore(r *vkit.R, m *material, ab *admissionBed, judged map[string]bool) {
 	r.Set("class_coverage", cov)
 	r.Set("mutations_applied", mutationSeen)
 	r.Set("accepted_by_generator_kind", acceptedByKind)
+	r.Set("update_requests_by_change_and_verdict", updateKinds)
+	for _, k := range []string{"metadata-only", "spec-only", "both", "nothing"} {
+		r.Require(updateKinds[k+"/accepted"] >= r.N(300, 5000), "too few accepted UPDATE requests of kind "+k)
+	}
+	r.Require(updateKinds["metadata-only/rejected"] >= r.N(300, 5000), "too few rejected metadata-only UPDATE requests")
 	for _, mu := range mutations {
 		r.Require(mutationSeen[mu.name] >= 100, "mutation "+mu.name+" hardly exercised")
 	}
@@ -474,3 +498,70 @@ func outcomeFeature(x outcome) string {
 	return normalise(d)
 }
 
+
+// exploreUpdate sends one UPDATE request (old = the stored, accepted, applied object) through the plugin's Admit+Validate
+// with a real old object, and applies every accepted update on top of old: gateway update path and limiter update path.
+func exploreUpdate(r *vkit.R, m *material, ab *admissionBed, judged map[string]bool, g *vkit.Rand, old *proxyv1alpha1.UpstreamCluster, mu *sync.Mutex, kinds map[string]int) {
+	upd, change := genUpdate(g, m, old)
+	r.Count("update_requests", 1)
+	wit := func(outs []outcome, note string) map[string]interface{} {
+		return map[string]interface{}{"stored_object": m.describe(old), "update_to": m.describe(upd), "change": change, "outcomes": outs, "note": note}
+	}
+	v := ab.admitAndValidateUpdate(upd, old)
+	if v.TimedOut {
+		r.Inconclusive("admission plugin " + v.Where + " did not return within the watchdog on an update to " + m.key(upd))
+		return
+	}
+	if v.Panic != nil {
+		r.Violation("C16/plugin-"+strings.ToLower(v.Where)+"-panics/"+v.Panic.Frame+"/"+panicKind(v.Panic.Value)+totalityFeature(upd)+"/on-update",
+			fmt.Sprintf("admission plugin %s panics on an UPDATE request (%s in %s)", v.Where, v.Panic.Value, v.Panic.Frame), wit(nil, ""))
+		return
+	}
+	mu.Lock()
+	if v.Accepted {
+		kinds[change+"/accepted"]++
+	} else {
+		kinds[change+"/rejected"]++
+	}
+	mu.Unlock()
+	if !v.Accepted {
+		return
+	}
+	r.Count("updates_accepted", 1)
+	cls := firstClass(upd, judged)
+	var outs []outcome
+	if gu, ok := applyGateway(upd, old); ok {
+		outs = append(outs, gu)
+		r.Count("gateway_applies", 1)
+		r.Count("gateway_updates", 1)
+	}
+	if lu, reports, ok := applyLimiter(upd, old); ok {
+		outs = append(outs, lu...)
+		r.Count("limiter_applies", 1)
+		r.Count("limiter_updates", 1)
+		r.Count("limiter_reports", reports)
+	}
+	var bad []string
+	for _, x := range outs {
+		if x.Kind == "harness" {
+			r.Inconclusive("harness: " + x.Detail)
+			continue
+		}
+		if !x.clean() {
+			bad = append(bad, fmt.Sprintf("%s: %s %s", x.Consumer, x.Kind, x.Detail))
+		}
+	}
+	switch {
+	case cls != "":
+		r.Violation("C16/accepted-breaking/"+cls+"/update="+change,
+			fmt.Sprintf("an UPDATE request (%s changed) to an object of breaking class %q passes admission; consumers when it is applied on top of the stored object: %s",
+				change, cls, strings.Join(bad, " | ")), wit(outs, ""))
+	case len(bad) > 0:
+		for _, x := range outs {
+			if !x.clean() && x.Kind != "harness" {
+				r.Violation("C16/accepted-unappliable/"+x.Consumer+"/"+x.Kind+"/"+outcomeFeature(x)+"/update="+change,
+					fmt.Sprintf("an UPDATE request (%s changed) passes admission but %s ends in %s: %s", change, x.Consumer, x.Kind, x.Detail), wit(outs, ""))
+			}
+		}
+	}
+}
